@@ -37,7 +37,8 @@ def expr_text(n):
 
 def prog_text(beh):
     """canonical readable text of a behaviour's program (used for signatures & samples)"""
-    if 'k' in beh: return expr_text(beh)
+    if 'k' in beh and beh.get('k') in ('leaf', 'op', 'let', 'ref'): return expr_text(beh)
+    if 'prog' not in beh: return json.dumps(beh)[:500]
     out = []
     for a in beh['prog']:
         k = a['a']
@@ -100,7 +101,7 @@ def replay(chk, behaviours, K, opts, owned, variant='seq', tag='', timeout=3000,
         beh = json.loads(behaviours[i])
         sig = 'crash|' + crash_site(text)
         chk.violation(sig, 'driver crashed (rc=%s) replaying: %s\n%s' % (rc, prog_text(beh), text[-1500:]),
-                      {'driver': args, 'K': K, 'behaviour': beh})
+                      {'driver': args, 'K': K, 'behaviour': beh, 'variant': variant})
     if failing and confirm:
         # re-run the failing behaviours once: only repeatable failures count
         inp2, out2 = inp + '.confirm', out + '.confirm'
@@ -121,7 +122,7 @@ def replay(chk, behaviours, K, opts, owned, variant='seq', tag='', timeout=3000,
         for f in fl:
             sig = sig_of(f, beh) if sig_of else default_sig(f, beh)
             chk.violation(sig, '%s at step %d of: %s -- %s' % (f['kind'], f['step'], prog_text(beh), json.dumps(f['detail'])[:400]),
-                          {'driver': args, 'K': K, 'behaviour': beh, 'failure': f})
+                          {'driver': args, 'K': K, 'behaviour': beh, 'failure': f, 'variant': variant})
     return len(results), nontrivial
 
 def crash_site(text):
